@@ -406,9 +406,12 @@ enum Kind {
     Undefined,
     /// compares a number with a string: has no value, i.e. fails
     Mixed,
+    /// the last byte / the last word of the address space (nothing is loaded there: 0)
+    RamTop,
+    Ram16Top,
 }
 
-const KINDS: [Kind; 9] = [Kind::A, Kind::X, Kind::Ram, Kind::Zero, Kind::Carry, Kind::Pc, Kind::Const, Kind::Undefined, Kind::Mixed];
+const KINDS: [Kind; 11] = [Kind::A, Kind::X, Kind::Ram, Kind::Zero, Kind::Carry, Kind::Pc, Kind::Const, Kind::Undefined, Kind::Mixed, Kind::RamTop, Kind::Ram16Top];
 
 impl Kind {
     fn name(self) -> &'static str {
@@ -423,6 +426,8 @@ impl Kind {
             Kind::Const => "const",
             Kind::Undefined => "undefined-symbol",
             Kind::Mixed => "number-vs-string",
+            Kind::RamTop => "ram-top",
+            Kind::Ram16Top => "ram16-top",
         }
     }
     fn state_dependent(self) -> bool {
@@ -441,6 +446,8 @@ enum Pred {
     Const(bool),
     Undefined,
     Mixed,
+    RamTop(bool),
+    Ram16Top(bool),
 }
 
 impl Pred {
@@ -455,6 +462,7 @@ impl Pred {
             Pred::Const(b) => b,
             // "cannot be evaluated" counts as zero
             Pred::Undefined | Pred::Mixed => false,
+            Pred::RamTop(b) | Pred::Ram16Top(b) => b,
         }
     }
     fn expr(self) -> String {
@@ -471,6 +479,10 @@ impl Pred {
             Pred::Const(false) => "c == 6".into(),
             Pred::Undefined => "ram(hidden_q) == 0".into(),
             Pred::Mixed => "cpu.x == \"one\"".into(),
+            Pred::RamTop(true) => "ram($ffff) == 0".into(),
+            Pred::RamTop(false) => "ram($ffff) == 1".into(),
+            Pred::Ram16Top(true) => "ram16($fffe) == 0".into(),
+            Pred::Ram16Top(false) => "ram16($fffe) == $0100".into(),
         }
     }
 }
@@ -488,6 +500,8 @@ fn make_pred(kind: Kind, s: &St, truth: bool) -> Pred {
         Kind::Const => Pred::Const(truth),
         Kind::Undefined => Pred::Undefined,
         Kind::Mixed => Pred::Mixed,
+        Kind::RamTop => Pred::RamTop(truth),
+        Kind::Ram16Top => Pred::Ram16Top(truth),
         Kind::None => unreachable!(),
     }
 }
@@ -1235,9 +1249,12 @@ enum BankForm {
     PcFalse,
     OtherNe,
     OtherEq,
+    /// an address between the bank's two segments holds the bank's fill value
+    GapEqFill,
+    GapEqZero,
 }
 
-const BANK_FORMS: [BankForm; 10] = [
+const BANK_FORMS: [BankForm; 12] = [
     BankForm::OwnEq,
     BankForm::OwnEqOther,
     BankForm::Own16,
@@ -1248,6 +1265,8 @@ const BANK_FORMS: [BankForm; 10] = [
     BankForm::PcFalse,
     BankForm::OtherNe,
     BankForm::OtherEq,
+    BankForm::GapEqFill,
+    BankForm::GapEqZero,
 ];
 
 impl BankForm {
@@ -1263,12 +1282,14 @@ impl BankForm {
             BankForm::PcFalse => "pc==here+1",
             BankForm::OtherNe => "ram-other-addr!=other",
             BankForm::OtherEq => "ram-other-addr==other",
+            BankForm::GapEqFill => "ram-gap==fill",
+            BankForm::GapEqZero => "ram-gap==0",
         }
     }
     fn passes(self) -> bool {
         matches!(
             self,
-            BankForm::OwnEq | BankForm::Own16 | BankForm::OwnLabel | BankForm::PcTrue | BankForm::OtherNe
+            BankForm::OwnEq | BankForm::Own16 | BankForm::OwnLabel | BankForm::PcTrue | BankForm::OtherNe | BankForm::GapEqFill
         )
     }
     fn needs_distinct_addresses(self) -> bool {
@@ -1283,11 +1304,12 @@ struct BankSide {
     test: &'static str,
     data: [u8; 2],
     start: u16,
+    fill: u8,
 }
 
 fn bank_sides(same_start: bool) -> [BankSide; 2] {
     [
-        BankSide { bank: "a", segment: "sa", label: "da", test: "ta", data: [0x11, 0x47], start: 0x2000 },
+        BankSide { bank: "a", segment: "sa", label: "da", test: "ta", data: [0x11, 0x47], start: 0x2000, fill: 0xe7 },
         BankSide {
             bank: "b",
             segment: "sb",
@@ -1295,6 +1317,7 @@ fn bank_sides(same_start: bool) -> [BankSide; 2] {
             test: "tb",
             data: [0x22, 0x58],
             start: if same_start { 0x2000 } else { 0x3000 },
+            fill: 0xd9,
         },
     ]
 }
@@ -1305,13 +1328,21 @@ fn bank_file(same_start: bool, b_first: bool, body: &[usize], forms: [Option<(Ba
     let order: [usize; 2] = if b_first { [1, 0] } else { [0, 1] };
     let mut lines: Vec<String> = vec![];
     for i in order {
-        lines.push(format!(".define bank {{ name = \"{}\" }}", sides[i].bank));
+        lines.push(format!(".define bank {{ name = \"{}\" fill = ${:02x} }}", sides[i].bank, sides[i].fill));
     }
     for i in order {
         lines.push(format!(
             ".define segment {{ name = \"{}\" bank = \"{}\" start = ${:04x} }}",
             sides[i].segment, sides[i].bank, sides[i].start
         ));
+        // a second segment of the bank, $100 further: what lies between the two is the bank's fill value
+        lines.push(format!(
+            ".define segment {{ name = \"{}2\" bank = \"{}\" start = ${:04x} }}",
+            sides[i].segment, sides[i].bank, sides[i].start + 0x100
+        ));
+    }
+    for i in order {
+        lines.push(format!(".segment \"{}2\" {{ .byte $99 }}", sides[i].segment));
     }
     let mut tests: Vec<Option<TestExp>> = vec![None, None];
     for i in order {
@@ -1333,6 +1364,8 @@ fn bank_file(same_start: bool, b_first: bool, body: &[usize], forms: [Option<(Ba
             BankForm::PcFalse => format!("* == ${:04x}", p.gaps[last_gap].1 + 1),
             BankForm::OtherNe => format!("ram(${:04x}) != ${:02x}", other.start, other.data[0]),
             BankForm::OtherEq => format!("ram(${:04x}) == ${:02x}", other.start, other.data[0]),
+            BankForm::GapEqFill => format!("ram(${:04x}) == ${:02x}", me.start + 0xf0, me.fill),
+            BankForm::GapEqZero => format!("ram(${:04x}) == 0", me.start + 0xf0),
         });
         let assertion = match (&expr, forms[i]) {
             (Some(e), Some((_, custom))) => Some((last_gap, e.as_str(), custom)),
